@@ -64,7 +64,10 @@ fn run_flush(a: &Args) -> Report {
         let as_dist = r.chance(1, 2);
         let prefix = if r.chance(1, 3) { Some("pfx".to_string()) } else { None };
         let glabels = if r.chance(1, 3) { vec![Label::new("g", "1")] } else { vec![] };
-        let mut driver = Driver::new(aggressive, false, 16, as_dist, glabels.clone(), prefix.clone(), 8192, lp);
+        // a small payload limit makes the histogram's values of one flush span several payloads (every one of them must
+        // still be the configured message type); counters and gauges of this workload stay below 40 bytes
+        let max_payload = if r.chance(1, 3) { 56 } else { 8192 };
+        let mut driver = Driver::new(aggressive, false, 16, as_dist, glabels.clone(), prefix.clone(), max_payload, lp);
         let rec = driver.recorder();
         let pn = |n: &str| match &prefix {
             Some(p) => format!("{}.{}", p, n),
@@ -212,7 +215,7 @@ fn run_flush(a: &Args) -> Report {
                 fatal = Some(e);
             }
         }
-        let desc = jo! {"mode" => if aggressive {"aggressive"} else {"conservative"}, "length_prefix" => lp, "prefix" => format!("{:?}", prefix), "incrementers" => ninc, "ops_each" => per, "flushes" => nflush, "idle_prelude" => idle_first, "total_wraps_u64" => wrap_prelude, "absolute_counter" => use_abs, "schedule" => sched.clone()};
+        let desc = jo! {"mode" => if aggressive {"aggressive"} else {"conservative"}, "length_prefix" => lp, "prefix" => format!("{:?}", prefix), "incrementers" => ninc, "ops_each" => per, "flushes" => nflush, "idle_prelude" => idle_first, "total_wraps_u64" => wrap_prelude, "absolute_counter" => use_abs, "schedule" => sched.clone(), "max_payload_len" => max_payload};
         if let Some(e) = fatal {
             rep.case(mix(t, 1), true);
             rep.violation("C10:flush-output-invalid", jo! {"what" => "a flush panicked or produced an undecodable payload", "error" => e, "trial" => desc});
